@@ -1,5 +1,6 @@
 """C03 - CTL* model checking is exact for arbitrary quantifier/path-operator nesting."""
 import gen
+import bigfam
 import mcfam
 import pymc
 from gen import P, Q, TR, FA, L0, M0
@@ -194,7 +195,11 @@ def run(ctx):
     ctx.note('mechanism_binding', binding)
     if binding == 'ok':
         ctx.note('uncovered_routes', [k for k, v in routes.items() if v == 0])
+    # large lassos (LargeShapes.tla): structures with more than a thousand states, answers by closed forms
+    bigfam.run_big(ctx, bigfam.cases(rnd, ['mc'], 4 if q else 40, logics=('CTLS',)))
 
 
 def replay(ctx, path):
+    if bigfam.maybe_replay(ctx, path):
+        return
     mcfam.replay_cases(ctx, path)
